@@ -27,7 +27,8 @@ from .pattern import Conv1dGeneric, Conv2dGeneric, LinearGeneric, \
 
 
 def _ops_conv1d_generic(spec):
-    cin = spec['in_channels']
+    # (a grouped convolution connects each output channel to in_channels / groups inputs)
+    cin = spec['in_channels'] / spec['groups']
     cout = spec['out_channels']
     k = spec['kernel_size']
     out_shape = spec['output_shape']
@@ -37,7 +38,8 @@ def _ops_conv1d_generic(spec):
 
 
 def _ops_conv2d_generic(spec):
-    cin = spec['in_channels']
+    # (a grouped convolution connects each output channel to in_channels / groups inputs)
+    cin = spec['in_channels'] / spec['groups']
     cout = spec['out_channels']
     k = spec['kernel_size']
     out_shape = spec['output_shape']
